@@ -6,7 +6,7 @@ from props.common import run_bounded
 
 
 def run(rep, kf, tier, seed):
-    engine_b.discharge(rep, kf, [cn.handle_nullable_contract(), cn.get_document_contract()], "C17", tier, seed)
+    engine_b.discharge(rep, kf, [cn.handle_nullable_contract(), cn.get_document_contract(), cn.load_contract()], "C17", tier, seed)
     cd.discharge(rep, kf, "C17", tier, seed)
     run_bounded(rep, kf, "C17", ["equivalent_docs"], tier)
     rep.trusted.extend(["pyvc Engine B", "pydantic runs the model validators on every Schema (assumed)"])
